@@ -591,6 +591,9 @@ TARGETED = {
     # three rebuilt stored dependencies and two dependents: m*n > m+n, the Barrier literal SURVIVES pruning
     "barrier-3x2": [("source", [], [], False), ("call", [0], [], True), ("call", [0], [], True), ("call", [0], [], True),
                     ("source", [], [1, 2, 3], False), ("call", [4], [], True), ("call", [0], [4], False), ("call", [6, 5], [], True)],
+    # staleness that reaches a stored consumer ONLY through an unregistered literal gated on a stored node (add_dependency(a, literal))
+    "through-gated-literal": [("source", [], [], False), ("call", [0], [], True), ("lit", [], [1], False), ("call", [2], [], True),
+                              ("call", [3], [], True)],
     # fresh stored node newer than its stored consumer's consumer: times must flow through fresh stored nodes
     "stored-chain": [("source", [], [], False), ("call", [0], [], True), ("call", [1], [], False), ("call", [2], [], True),
                      ("call", [3], [], True)],
@@ -610,7 +613,7 @@ def targeted_histories(ctx, camp):
             stored = [i for i, m in enumerate(w.meta) if m["store"] is not None and not m["is_src"]]
             srcs = [m["store"] for m in w.meta if m["is_src"]]
             script = ["run", "run_none", "update", "run", "run_none", "delete", "run", "run_none", "fresh", "run_none",
-                      "update", "cut", "run_none", "delete", "cut", "run"]
+                      "update", "cut", "run_none", "delete", "cut", "run"] + (["update", "cut_everywhere"] if variant == 0 else [])
             for step, op in enumerate(script):
                 out = rng.choice([None, last, rng.randrange(w.n)])
                 if op == "run":
@@ -635,6 +638,20 @@ def targeted_histories(ctx, camp):
                 elif op == "cut":
                     try:
                         cut_and_repair(ctx, camp, w, out, [name, step, op])
+                    except WorldLost:
+                        break
+                elif op == "cut_everywhere":
+                    # after a source update: the run is cut at EVERY one of its operations in turn (store state restored in between), then repaired
+                    saved = [(s_.v, s_.t) for s_ in w.stores]
+                    try:
+                        for kk in range(1, 40):
+                            for s_, (v_, t_) in zip(w.stores, saved):
+                                s_.v, s_.t = v_, t_
+                            w.clock += 1000
+                            n_before = len(camp.found)
+                            cut_and_repair(ctx, camp, w, None, [name, step, op, kk], k_fixed=kk)
+                            if w.opcount and kk > 30:
+                                break
                     except WorldLost:
                         break
                 ctx.case(("targeted", name, variant, step, tuple(str(x) for x in w.sigma())))
@@ -745,7 +762,7 @@ def history_campaign(ctx, camp, n_worlds, steps, props_cut=True):
             ctx.count("history_op", op)
 
 
-def cut_and_repair(ctx, camp, w, output, desc):
+def cut_and_repair(ctx, camp, w, output, desc, k_fixed=None):
     """C08: cut a run at operation k, then check the stores and the repairing run."""
     rng = ctx.rng
     sigma0 = w.sigma()
@@ -759,8 +776,8 @@ def cut_and_repair(ctx, camp, w, output, desc):
     w.clock = clock + 1000     # keep the clock strictly increasing across the discarded measurement run
     if total == 0:
         return
-    k = rng.randrange(1, total + 1)
-    hard = rng.random() < 0.3
+    k = rng.randrange(1, total + 1) if k_fixed is None else min(k_fixed, total)
+    hard = rng.random() < 0.3 and k_fixed is None
     w.fault_falsy = (not hard) and rng.random() < 0.4
     ctx.count("cut_exception_falsy", w.fault_falsy)
     res = w.run(output, None, workers=rng.choice([1, 3]), scheduler=rng.choice([None, "random"]), fault_at=k,
@@ -819,3 +836,13 @@ def cut_and_repair(ctx, camp, w, output, desc):
             if node_of_store[s] in obs2["written"] and utd[node_of_store[s]]:
                 camp.add("C08", "needless-rebuild-after-cut",
                          "node %d was completely written before the cut but the next run rebuilt it" % node_of_store[s], replay)
+        # the repairing run leaves from-scratch stored values (every store the run was responsible for: output None = all of them)
+        if output is None:
+            sigma2 = w.sigma()
+            scr2 = w.scratch(sigma2)
+            wrong = [i for i, m in enumerate(w.meta) if m["store"] is not None and not m["is_src"] and m["kind"] == "call"
+                     and (sigma2[m["store"]] is None or sigma2[m["store"]][0] != scr2[i])]
+            if wrong:
+                camp.add("C08", "repair-leaves-wrong-stores", "after a cut at operation %d the next (successful, output=None) run left stored values of nodes %r that differ from a run from scratch: "
+                         "%r instead of %r" % (k, wrong, [sigma2[w.meta[i]["store"]] and sigma2[w.meta[i]["store"]][0] for i in wrong], [scr2[i] for i in wrong]),
+                         dict(replay, sigma_after_repair=sigma2))
